@@ -13,7 +13,7 @@
 From Coq Require Import List ZArith Sorted.
 Import ListNotations.
 Open Scope Z_scope.
-Require Import MW.KV.Model MW.KV.Proofs MW.KV.Proofs2 MW.KV.Proofs3 MW.KV.Proofs4 MW.KV.Proofs5 MW.KV.Proofs6.
+Require Import MW.KV.Model MW.KV.Proofs MW.KV.Proofs2 MW.KV.Proofs3 MW.KV.Proofs4 MW.KV.Proofs5 MW.KV.Proofs6 MW.KV.Spec MW.KV.Refine.
 
 (* ---- atomicity *)
 (* Commit applies exactly the recorded log, Rollback nothing; db.Update with a failing function leaves the store as it
@@ -672,3 +672,63 @@ Proof.
   split; [exact Hwf|]. split; [apply batch_idx_ok_keys_bytes; apply Hidx|].
   vm_compute in E. inversion E; subst b. vm_compute. split; reflexivity.
 Qed.
+
+(* ---- THE WHOLE-SEQUENCE STATEMENT: the model refines an abstract map (KV/Spec.v: definitions, KV/Refine.v: proofs).
+   KV/Spec.v [spec_step] is the specification: a set of existing buckets and per bucket a map key -> value ([content]);
+   a write transaction works on a copy of the committed content, Commit installs the copy, Rollback / a failing Update
+   drops it; a read transaction reads the content committed when it began; GetByPrefix / iterators return the matching
+   entries of that content in ascending key order; close / reopen keeps the committed content.  It runs over the same
+   [op] and [res] as the model's [step]; [Unspecified] is its answer where the property text is silent.
+   [spec_run ss ops]: the specification's results up to the first unspecified step; [outs st ops]: the model's results;
+   [res_equiv]: equal, except that two GetByPrefix / BucketNames listings are compared as sets (Permutation);
+   [R]: the abstraction relation (committed store decoded through the inner-key encoding = committed content; store after
+   committing the open batch = the working copy; the store a read transaction captured = its snapshot content; slots
+   hold handles of the same buckets / iterators with the same entries left).
+   For EVERY typed operation sequence: the model's results agree with the specification's on the whole specified
+   prefix, R relates the two states after every specified prefix, and (non-vacuity of the prefix formulation) when no step
+   is unspecified the prefix is the whole sequence.
+   SPECIFIED (everything else is [Unspecified]): BeginTx / BeginReadTx / Commit / Rollback / read-transaction end /
+   db.Update begin and end with or without error / Close / Reopen / TopLevelBucket / CreateTopLevelBucket /
+   DeleteTopLevelBucket / Put / Delete / Clear / Get / GetByPrefix / NewIterator (nil, Range, BytesPrefix) / Seek / Next /
+   Release — in read AND write transactions, iterators of a write transaction also after later writes (they keep
+   showing the view as of their creation) / db.BytesPrefix.
+   NOT YET SPECIFIED (the step is [Unspecified], the theorem is silent from there on): NewBucket, Bucket, DeleteBucket,
+   FetchBucket, both BucketNames, the dump; and, as in the harness, a Put through the handle of a bucket that does not
+   exist in the transaction and a lookup of a committed bucket the transaction itself deleted (neither can occur without
+   DeleteBucket). *)
+Theorem C11_refines_abstract_map : forall ops, Forall op_bytes ops ->
+  Forall2 res_equiv (firstn (length (spec_run spec_init ops)) (outs init_state ops)) (spec_run spec_init ops) /\
+  (forall n, match spec_exec spec_init (firstn n ops) with
+             | Some ss' => R (run (firstn n ops)) ss'
+             | None => True
+             end) /\
+  (spec_exec spec_init ops <> None -> length (spec_run spec_init ops) = length ops).
+Proof. exact refines_abstract_map. Qed.
+Print Assumptions C11_refines_abstract_map.
+
+(* one step of it (the simulation square) *)
+Theorem C11_refinement_step : forall st ss o ss' r, R st ss -> op_bytes o -> spec_step ss o = (ss', Spec r) ->
+  R (fst (step st o)) ss' /\ res_equiv (snd (step st o)) r.
+Proof. exact step_sim. Qed.
+Print Assumptions C11_refinement_step.
+
+(* non-vacuity: on the history Refine.ex_ref_ops (a committed put, a read transaction spanning a later commit, a write
+   transaction that deletes / overwrites / puts, reads back, iterates and is rolled back, close / reopen) every step is
+   specified, and both sides compute the same 38 results (the one listing inside the write transaction in a different order) *)
+Example C11_ex_refinement :
+  Forall op_bytes ex_ref_ops /\ length (spec_run spec_init ex_ref_ops) = length ex_ref_ops /\
+  spec_run spec_init ex_ref_ops = ex_ref_outs [([98], [121]); ([109], [120])] /\
+  outs init_state ex_ref_ops = ex_ref_outs [([109], [120]); ([98], [121])].
+Proof. split; [exact ex_ref_bytes|]. vm_compute. repeat split. Qed.
+(* the theorem instantiated on it, premise-free *)
+Example C11_ex_refinement_thm :
+  Forall2 res_equiv (outs init_state ex_ref_ops) (spec_run spec_init ex_ref_ops) /\
+  exists ss', spec_exec spec_init ex_ref_ops = Some ss' /\ R (run ex_ref_ops) ss'.
+Proof.
+  destruct (C11_refines_abstract_map ex_ref_ops ex_ref_bytes) as [H1 [H2 _]]. split.
+  - replace (outs init_state ex_ref_ops) with (firstn (length (spec_run spec_init ex_ref_ops)) (outs init_state ex_ref_ops)); [exact H1|].
+    vm_compute. reflexivity.
+  - specialize (H2 (length ex_ref_ops)). rewrite firstn_all in H2.
+    destruct (spec_exec spec_init ex_ref_ops) as [ss'|] eqn:E; [exists ss'; auto|]. vm_compute in E. discriminate.
+Qed.
+Print Assumptions C11_ex_refinement_thm.
